@@ -25,6 +25,7 @@ EXPLANATION = (
     "subclass. With C13's MIR rule this also covers 'never a silently wrapped number'. NOT decided: that "
     "both back ends return the same value whenever both accept a string."
     " Also: the compiled Duration's fields are handed to pendulum.duration unit for unit."
+    ' As built: CAST-UNION is decided by running _parse_iso8601_interval on every combination of half kinds (datetime / date / time / Duration stubs): only a date (a datetime next to a duration) may reach _Interval as a bound, only a Duration as the duration; the dominance-fact rule only decides for code outside the interpreter.'
 )
 
 USE_CALLS = {"int", "len", "float"}
